@@ -92,6 +92,18 @@ fn main() {
         }
         let _ = std::fs::remove_file(&built);
     }
+    // containers, like the image: `docker logs|port|exec <name>` of a container that was never started
+    // successfully fails with "No such container"
+    if kind == "run-detached" && outcome == "ok" {
+        if let Some(i) = a.iter().position(|x| *x == "--name") { if let Some(n) = a.get(i + 1) { let _ = std::fs::write(state.join(format!("container-{n}")), "x"); } }
+    }
+    if matches!(kind, "logs" | "port" | "exec") {
+        let name = a.iter().skip(1).find(|x| !x.starts_with('-')).copied().unwrap_or("");
+        if !state.join(format!("container-{name}")).exists() {
+            eprintln!("Error response from daemon: No such container: {name}");
+            std::process::exit(1);
+        }
+    }
     if outcome == "fail" {
         eprintln!("stand-in {prog}: scripted failure of {kind}");
         std::process::exit(1);
